@@ -156,6 +156,12 @@ ElemLiteralResult::init(
                 needToProcess = false;
             }
         }
+        else if (equals(aname, DOMServices::s_XMLNamespace.c_str()) == true)
+        {
+            // The default namespace declaration is not an attribute either.
+            // The namespaces handler takes care of it.
+            needToProcess = false;
+        }
 
         if (needToProcess == true)
         {
